@@ -186,7 +186,8 @@ func init() {
 		ID: "C14", Level: "model_checking",
 		Rule: "E1 over start / callback requests of two browsers and two providers with state in {own, other browser's, previous, empty, garbage} x code in {plain uid, uid with ';;', with ';', invalid} x provider error; plus the complete PID codec product (provider strings <= 3 over {a,b} x uid strings <= 5 over {a, ;, :}); classes = login / refusal kinds and codec uid classes",
 		Units: func(tier string) []engine.Unit {
-			us := e1Units(c14Scenarios(tier))
+			scs := c14Scenarios(tier)
+			us := e1Units(append(scs, configVariants(scs, tier, "err500", "nil-state", "nomount")...))
 			us = append(us, engine.Unit{Name: "codec", Run: c14Codec})
 			return us
 		},
